@@ -816,11 +816,11 @@ def c07(acc):
     # target types: the hand-written family + std shapes + 40 [120] types given as data (spread over MC_Schema's type space)
     _, psch = mc_schema(acc, 2 if q else 3, "MC_Schema-c07")
     sch = ["--schemas", psch, "--max-schemas", 40 if q else 120]
-    de_replay(acc, p, "soup", "B:token soups x all target types x from_str/from_reader", extra=["--mutate", 0 if q else 1] + sch)
+    de_replay(acc, p, "soup", "B:token soups x all target types x from_str/from_reader", extra=["--mutate", 0 if q else 1, "--stride", 1 if q else 12] + sch)
     # text runs inside an element: text / blanks / CDATA / comment / DOCTYPE / reference / end tag, up to 6 [7] pieces
-    _, pt = mc_de(acc, "textrun", 5 if q else 7, ["F02"], "MC_De-textrun")
-    de_replay(acc, pt, "soup", "B:text-run shapes inside an element x all target types", extra=sch)
-    de_replay(acc, p, "soup", "B:token soups, quick-xml built without overlapped-lists", flavour="nool")
+    _, pt = mc_de(acc, "textrun", 5 if q else 6, ["F02"], "MC_De-textrun")
+    de_replay(acc, pt, "soup", "B:text-run shapes inside an element x all target types", extra=sch + ["--stride", 1 if q else 8])
+    de_replay(acc, p, "soup", "B:token soups, quick-xml built without overlapped-lists", flavour="nool", extra=["--stride", 1 if q else 12])
     # content inside an element carrying a bound xsi:nil="true" (treated as absent by the Option logic)
     _, pn = mc_de(acc, "nil", 4 if q else 5, ["F02"], "MC_De-nil")
     de_replay(acc, pn, "soup", "B:content under xsi:nil x all target types", extra=sch)
